@@ -2,6 +2,7 @@
 
 specs/Cookie.tla (byte-level reference: RFC 6265 cookie-string / set-cookie-string grammar, 5.2 parser, percent-coding and
 UTF-8 from UrlEnc; ohkami's Name/Value walker), MC_Cookie, CookieGen, Trace_Cookie, harness/src/cookie.rs."""
+import hashlib, json
 from vlib import finish, standard_pipeline, standard_replay
 
 RULE = ("TLC enumerates (dec) jars of 1-3 cookies in every spelling RFC 6265 allows (each character raw where it is a cookie-octet, "
@@ -11,7 +12,14 @@ RULE = ("TLC enumerates (dec) jars of 1-3 cookies in every spelling RFC 6265 all
         "really sent; seeded random scenarios beyond those bounds; non-trivial = a value with a character outside [A-Za-z0-9], an escape "
         "or quotes, more than one cookie, or at least one directive")
 
+def _key(s):
+    return hashlib.sha1(json.dumps({k: v for k, v in s.items() if k not in ("id", "seed", "random")}, sort_keys=True).encode()).hexdigest()
+
 def nontrivial(o):
+    """key (content hash) of the scenario when it is non-trivial by RULE, else None: distinct scenarios are counted, not ids"""
+    return _key(o["scn"]) if _nontrivial(o) else None
+
+def _nontrivial(o):
     s = o["scn"]
     if s["mode"] == "set":
         for c in s["cookies"]:
